@@ -236,6 +236,12 @@ func (inst *Instance) Run(P *Program, solverName string, timeoutMs int, seed int
 		work = append(work, x.alts...)
 	}
 	inst.WallS = time.Since(t0).Seconds()
+	// release what only the exploration needed (thousands of instances are kept for the report)
+	inst.snap = nil
+	inst.feasCache = nil
+	inst.in = nil
+	inst.goldenIDs = nil
+	inst.traceSeen = nil
 }
 
 // prepare interns the golden list and executes package initialisation once (heap snapshot).
